@@ -279,6 +279,11 @@ def rule_chunk(rep):
 
 
 def refs_only(e, allowed):
+    if e.get("k") == "un" and e["op"] == "!":
+        return refs_only(e["e"], allowed)
+    if e.get("k") == "mcall" and e["name"] == "contains" and e["recv"].get("k") == "range" and len(e["args"]) == 1:
+        arg = e["args"][0]["e"] if e["args"][0].get("k") == "ref" else e["args"][0]
+        return all(refs_only(x, allowed) for x in (e["recv"].get("lo"), e["recv"].get("hi"), arg) if x is not None)
     for x in walk(e):
         if x.get("k") == "path" and x["p"] not in allowed and x["p"] != "self":
             return False
